@@ -73,6 +73,49 @@ def stokes_np(x: Any) -> dict[str, np.ndarray]:
     return {c: np.asarray(getattr(x, c.lower()), dtype=np.float64) for c in type(x).stokes}
 
 
+def case_border(rng: Any, ctx: Ctx, index: int) -> None:
+    """A boresight detector pointed 2e-8 rad on either side of a pixel border (found by bisection with healpy), float32 and
+    float64 landscapes: the pixel is decided by the float64 direction, whatever the dtype of the map."""
+    nside = int(gen.pick(rng, [2, 8, 64, 1024]))
+    ldt = gen.pick(rng, [np.float32, np.float64])
+    kind = gen.pick(rng, ['I', 'IQU'])
+    land = HealpixLandscape(nside, kind, ldt)
+    phi0 = float(rng.uniform(0.1, 6.0))
+    lo, hi = float(rng.uniform(0.2, 1.4)), None
+    p_lo = hp.ang2pix(nside, lo, phi0)
+    hi = lo + 4.0 / nside
+    while hp.ang2pix(nside, hi, phi0) == p_lo:
+        hi += 1.0 / nside
+    for _ in range(80):
+        mid = 0.5 * (lo + hi)
+        if hp.ang2pix(nside, mid, phi0) == p_lo:
+            lo = mid
+        else:
+            hi = mid
+    theta = np.array([lo - 2e-8, hi + 2e-8, lo - 5e-8, hi + 5e-8])
+    phi = np.full(4, phi0)
+    psi = np.zeros(4)
+    samp = Sampling(jnp.asarray(theta), jnp.asarray(phi), jnp.asarray(psi))
+    det = DetectorArray(np.zeros((1, 1)), np.zeros((1, 1)), np.ones((1, 1)))
+    dirs = np.array([0.0, 0.0, 1.0]).reshape(3, 1, 1)
+    pix, amb = pointing_pixels(nside, theta, phi, psi, dirs)
+    pix, amb = pix[:, 0, :], amb[:, 0, :]
+    LOG.case_key(f'border:nside{nside}:{np.dtype(ldt).name}:{kind}', True)
+
+    def judge() -> None:
+        P = create_projection_operator(land, samp, det)
+        sky = land.normal(jax.random.PRNGKey(int(rng.integers(1 << 30))))
+        got = np.asarray(P.mv(sky).i, dtype=np.float64)
+        exp = np.asarray(sky.i, dtype=np.float64)[pix]
+        LOG.evaluated('C16.projection', pix.size)
+        LOG.count('C16.border', f'{np.dtype(ldt).name}')
+        bad = (got != exp) & ~amb
+        if bad.any():
+            LOG.violation('C16', 'C16.projection', f'projection/border-pixel/{np.dtype(ldt).name}-landscape',
+                          f'{int(bad.sum())} of 4 directions 2e-8..5e-8 rad from a pixel border are read from the wrong pixel', nside=nside)
+    guarded('C16.projection', judge)
+
+
 def case(rng: Any, ctx: Ctx, index: int) -> None:
     nside = int(gen.pick(rng, [1, 2, 4, 8, 16, 64]))
     kind = gen.pick(rng, ['I', 'QU', 'IQU', 'IQUV'])
@@ -82,6 +125,10 @@ def case(rng: Any, ctx: Ctx, index: int) -> None:
     nt = int(rng.integers(1, 41))
     if index % 9 == 4:
         nt = int(gen.pick(rng, [1025, 1500, 2049, 3000]))   # long scans (more samples than any internal chunk size)
+    if index % 7 == 3 and ndet >= 2:
+        nt = ndet                                           # as many samples as detectors
+    if index % 5 == 2:
+        case_border(rng, ctx, index)
     how = gen.pick(rng, ['uniform', 'wrap', 'poles', 'random-sampling'])
     land = HealpixLandscape(nside, kind, np.float64)
     samp, det, theta, phi, psi, dirs = make_inputs(rng, nside, ndet, ndir, nt, how)
